@@ -393,6 +393,8 @@ def rule_init_complete(ctx, fl):
 def run(ctx):
     for fl in flavours(ctx):
         ctx.unit = fl
+        ctx.doc('C04.8', 'native API forwarding: each public entry point of this property reaches the implementation of the same name with its parameters in order and returns its result (sibling slips such as trylock -> lock, signal -> broadcast, swapped arguments)')
+        lib.native_forwarding(ctx, 'C04.8', fl, lambda n: n.startswith(('myth_mutex_', 'myth_mutexattr_')), floor=8)
         rule_init_complete(ctx, fl)
         v = ctx.view(NATIVE, roots=['myth_mutex_lock_body', 'myth_mutex_trylock_body', 'myth_mutex_timedlock_body',
                                     'myth_mutex_unlock_body', 'myth_block_on_queue', 'myth_mutex_clear_lock_bit'],
@@ -403,10 +405,22 @@ def run(ctx):
         rule3_unlock(ctx, v)
         rule4_nonblocking(ctx, fl)
         rule5_ilock(ctx, fl)
+    from . import c16
+    for wfl in ('ld', 'dl'):
+        ctx.unit = wfl
+        with ctx.shared({'C16.2': 'C04.7'}, floor=6,
+                        doc='statically initialised mutexes (shared with C16.2): every redirected mutex operation converts '
+                            'PTHREAD_MUTEX_INITIALIZER first, exactly one thread is elected to convert, and a loser of the election '
+                            'returns only once the mutex is converted (otherwise its lock operates on a half-built mutex and mutual '
+                            'exclusion is lost on first concurrent use)'):
+            v16, _ws = c16.build_view(ctx, wfl)
+            c16.rule2_static_init(ctx, wfl, v16)
 
 
 SYNC = 'src/myth_sync_func.h'
 MUTANTS = [
+    {'name': 'native myth_mutex_trylock forwards to the blocking lock', 'expect': 'C04.8',
+     'edits': [('src/myth_if_native.c', "  return myth_mutex_trylock_body(mutex);", "  return myth_mutex_lock_body(mutex);")]},
     {'name': 'sleep queue enq keeps the old tail (sweep M0499)', 'expect': 'C04.5',
      'edits': [('src/myth_sleep_queue_func.h', "    q->head = t;\n  }\n  q->tail = t;\n  myth_spin_unlock_body(q->ilock);", "    q->head = t;\n  }\n  myth_spin_unlock_body(q->ilock);")]},
     {'name': 'sleep queue enq links on the wrong branch (sweep M0500)', 'expect': 'C04.5',
